@@ -56,6 +56,9 @@ type Op struct {
 	Delta int    `json:"delta,omitempty"`
 	// advance: the DA head moves forward by By heights.
 	By int `json:"by,omitempty"`
+	// CtxDone (get): the call is made with a context that is already done (a stop request or a
+	// timeout around the call): every DA retrieval of that call fails
+	CtxDone bool `json:"ctx_done,omitempty"`
 }
 
 type Scenario struct {
@@ -123,6 +126,7 @@ func genGet(t *rapid.T) Op {
 		o.K = rapid.IntRange(1, 4).Draw(t, "k")
 		o.Delta = rapid.IntRange(-1, 1).Draw(t, "delta")
 	}
+	o.CtxDone = rapid.IntRange(0, 7).Draw(t, "ctxdone") == 0
 	return o
 }
 
@@ -465,7 +469,18 @@ func (w *wrld) names(from, to int) string {
 
 // get performs one GetNextBatch call and judges the response. A non-nil verdict is a violation.
 func (w *wrld) get(limit uint64, when string) *world.Verdict {
+	return w.getCtx(limit, when, false)
+}
+
+func (w *wrld) getCtx(limit uint64, when string, ctxDone bool) *world.Verdict {
 	w.calls++
+	callCtx := w.ctx
+	if ctxDone {
+		c, cancel := context.WithCancel(w.ctx)
+		cancel()
+		callCtx = c
+		w.labels["call-with-done-context"] = true
+	}
 	req := coresequencer.GetNextBatchRequest{Id: chainID, MaxBytes: limit, LastBatchData: w.last}
 	var resp *coresequencer.GetNextBatchResponse
 	var err error
@@ -476,7 +491,7 @@ func (w *wrld) get(limit uint64, when string) *world.Verdict {
 				pan = r
 			}
 		}()
-		resp, err = w.seq.GetNextBatch(w.ctx, req)
+		resp, err = w.seq.GetNextBatch(callCtx, req)
 	}()
 	if pan != nil {
 		// the statement does not promise "never panics": observed, not judged
@@ -620,7 +635,7 @@ func run(sc Scenario) world.Verdict {
 				w.labels["advance-da"] = true
 			}
 		case "get":
-			if v := w.get(w.resolveLimit(o), fmt.Sprintf("op %d", i)); v != nil {
+			if v := w.getCtx(w.resolveLimit(o), fmt.Sprintf("op %d", i), o.CtxDone); v != nil {
 				return *v
 			}
 		}
